@@ -13,6 +13,7 @@ type profile struct {
 	Prefix  *net.IPNet
 	MAC     net.HardwareAddr
 	DestIPs []net.IP
+	iface   string
 }
 
 // newConfig parses a configuration id with an optional condition.
@@ -31,6 +32,7 @@ func newConfig(v string) (profile, error) {
 	} else if mac, err := net.ParseMAC(cond); err == nil {
 		c.MAC = mac
 	} else if iface, _ := net.InterfaceByName(cond); iface != nil {
+		c.iface = cond
 		addrs, _ := iface.Addrs()
 		for _, addr := range addrs {
 			if ipnet, ok := addr.(*net.IPNet); ok {
@@ -87,6 +89,9 @@ func (p profile) String() string {
 	}
 	if p.Prefix != nil {
 		return fmt.Sprintf("%s=%s", p.Prefix, p.ID)
+	}
+	if p.iface != "" {
+		return fmt.Sprintf("%s=%s", p.iface, p.ID)
 	}
 	return p.ID
 }
